@@ -181,4 +181,97 @@ def replay(ctx, case):
     check_case(ctx, case)
 
 
-SUBS = [Sub("convert", run, replay, quick=12000, thorough=500000)]
+# ---------------------------------------------------------------------------
+# large arrays (beyond any internal block / buffer size), vectorised exact
+# reference: inputs are k/2 for integers k, so that rounding half-to-even and
+# clamping can be computed with integer arithmetic
+# ---------------------------------------------------------------------------
+@st.composite
+def large_cases(draw):
+    in_dtype = draw(st.sampled_from(["float64", "float32", "int32", "int64",
+                                     "uint16", "uint64"]))
+    out = draw(st.sampled_from(OUT_TYPES))
+    return {"in": in_dtype, "out": out,
+            "n": draw(st.sampled_from([262144, 262145, 300000, 70 ** 3,
+                                       2 ** 20 + 3])),
+            "form": draw(st.sampled_from(["contig", "fortran3d", "strided",
+                                          "readonly"])),
+            "preserve": draw(st.booleans()),
+            "seed": draw(st.integers(0, 2 ** 20))}
+
+
+def check_large(ctx, case):
+    from neuroglancer_scripts.data_types import get_chunk_dtype_transformer
+    n, out, in_dtype = case["n"], case["out"], case["in"]
+    rng = np.random.default_rng(case["seed"])
+    if out == "float32":
+        lim = 2 ** 20      # exactly representable halves
+    else:
+        lim = min(dtype_ref.INT_RANGE[out][1], 2 ** 30) + 1000
+    if in_dtype.startswith("float"):
+        if in_dtype == "float32":
+            lim = min(lim, 2 ** 20)
+        k = rng.integers(-2000, 2 * lim, size=n, dtype=np.int64)
+        arr = (k / 2.0).astype(in_dtype)
+    else:
+        lo, hi = dtype_ref.INT_RANGE[in_dtype]
+        k = 2 * rng.integers(max(lo, -2000), min(hi, lim), size=n,
+                             dtype=np.int64, endpoint=True)
+        arr = (k // 2).astype(in_dtype)
+    q, r = np.divmod(k, 2)
+    if out == "float32":
+        want = (k / 2.0).astype(np.float32)
+    else:
+        rounded = q + (r & (q & 1))
+        olo, ohi = dtype_ref.INT_RANGE[out]
+        want = np.clip(rounded, olo, min(ohi, 2 ** 62)).astype(out)
+    form = case["form"]
+    if form == "fortran3d" and n % 64 == 0:
+        arr = np.asfortranarray(arr.reshape(64, n // 64))
+        want = want.reshape(64, n // 64)
+    elif form == "strided":
+        big = np.zeros(2 * n, dtype=arr.dtype)
+        big[::2] = arr
+        arr = big[::2]
+    elif form == "readonly":
+        arr.setflags(write=False)
+    before = arr.tobytes()
+    t = get_chunk_dtype_transformer(in_dtype, out, warn=False)
+    try:
+        with np.errstate(all="ignore"):
+            res = t(arr, preserve_input=case["preserve"])
+    except Exception as exc:
+        ctx.fail("conversion of %d %s values to %s raised %s: %s" % (
+            n, in_dtype, out, type(exc).__name__, exc))
+    if res.shape != want.shape or res.dtype != want.dtype:
+        ctx.fail("large array: result %s %s, expected %s %s" % (
+            res.shape, res.dtype, want.shape, want.dtype))
+    if not np.array_equal(res, want):
+        i = int(np.argmax((res != want).reshape(-1)))
+        ctx.fail("large array (%d x %s -> %s, %s): element %d is %r, exact "
+                 "reference %r (input %r)" % (
+                     n, in_dtype, out, form, i, res.reshape(-1)[i].item(),
+                     want.reshape(-1)[i].item(), arr.reshape(-1)[i].item()))
+    if case["preserve"] and arr.tobytes() != before:
+        ctx.fail("large array (%d x %s -> %s, %s): input modified although "
+                 "preserve_input=True" % (n, in_dtype, out, form))
+
+
+def run_large(ctx, n):
+    def check(ctx, case):
+        check_large(ctx, case)
+        ctx.record(case, True, ["%s->%s" % (case["in"], case["out"]),
+                                "form." + case["form"]])
+    ctx.run_hypothesis(large_cases(), check, n)
+
+
+def replay_any(ctx, case):
+    if "n" in case:
+        check_large(ctx, case)
+    else:
+        check_case(ctx, case)
+
+
+SUBS = [Sub("convert", run, replay_any, quick=12000, thorough=500000),
+        Sub("large", run_large, replay_any, quick=120, thorough=3000,
+            min_per_shard=8)]
